@@ -88,10 +88,17 @@ pub struct MeanRef {
     pub kappa: f64,
     pub constant: bool,
     pub mom: Moments,
+    /// number of observations whose square is non-zero and below 2^-126 resp. 2^-1022 (they are rounded on the
+    /// subnormal grid when the sum of squares is formed); (f32 count, f64 count)
+    pub n_sub: (usize, usize),
 }
 impl MeanRef {
     pub fn new(data: &[f64]) -> MeanRef {
-        Self::from_moments(moments(data))
+        let mut r = Self::from_moments(moments(data));
+        let below = |lim: f64| data.iter().filter(|x| **x != 0.0 && x.abs() < lim).count();
+        // |x| < 2^-63 <=> x^2 < 2^-126 ; |x| < 2^-511 <=> x^2 < 2^-1022
+        r.n_sub = (below(crate::fl::pow2(-63)), below(crate::fl::pow2(-511)));
+        r
     }
     pub fn from_moments(mom: Moments) -> MeanRef {
         let n = mom.n;
@@ -102,16 +109,19 @@ impl MeanRef {
         let m1 = mom.mean_abs();
         let q = mom.mean_sq();
         let constant = n >= 2 && mom.is_constant();
-        MeanRef { n, mean, var, sd, se, m1, q, kappa: if sd > 0.0 { mean.abs() / sd } else { f64::INFINITY }, constant, mom }
+        // without the data every observation is assumed to be affected by underflow (conservative)
+        MeanRef { n, mean, var, sd, se, m1, q, kappa: if sd > 0.0 { mean.abs() / sd } else { f64::INFINITY }, constant, mom, n_sub: (n, n) }
     }
     /// Δv: bound on the error of the computed variance, `depth` = merge nesting depth
     pub fn dv<F: Fl>(&self, depth: u32) -> f64 {
         let n = self.n as f64;
         let k = 20.0 + 6.0 * depth as f64;
         // + absolute underflow term: every square and partial sum of squares is rounded to a multiple of the smallest
-        // subnormal eta when it falls below the normal range (data of magnitude ~ sqrt(MIN_POSITIVE))
+        // subnormal eta when it falls below the normal range (data of magnitude ~ sqrt(MIN_POSITIVE)); only the
+        // observations whose squares actually are below the normal range count (plus two for the final operations)
         let eta = if F::IS32 { crate::fl::pow2(-149) } else { crate::fl::pow2(-1074) };
-        (k * n / (n - 1.0) * self.q + self.var) * F::U + 8.0 * n * eta
+        let n_sub = if F::IS32 { self.n_sub.0 } else { self.n_sub.1 } as f64;
+        (k * n / (n - 1.0) * self.q + self.var) * F::U + 8.0 * (n_sub + 2.0) * eta
     }
     /// inside the conditioning domain: the variance is resolved to 1 %
     pub fn conditioned<F: Fl>(&self, depth: u32) -> bool {
